@@ -468,7 +468,7 @@ def run_impl(sc, weights='patch', split=False, reduced=False):
     from simprocesd.model import EventType
     from simprocesd.model import resource_manager as rmmod
     from simprocesd.model.factory_floor import maintainer as mmod
-    flat, obs = [], []
+    flat, obs = [-778, 1], []      # the model reports whether the initial world is well-formed (coq/Model/FamFloor.v wf_worldb)
     with common.WeightPatch(sc['seed'], sc['mod'], mode=weights):
         orig_rr_init = rmmod.ReservedResources.__init__
         orig_wo_init = mmod._WorkOrder.__init__
